@@ -105,11 +105,17 @@ func (exec *Executor) execArrayIndex(
 		return res, resErr
 	}
 
-	// In strict mode we accept only arrays.
-	return exec.returnVerboseError(fmt.Errorf(
-		"%w: jsonpath array accessor can only be applied to an array",
-		ErrVerbose,
-	))
+	// In strict mode we accept only arrays, unless structural errors are
+	// being ignored (below a .** accessor).
+	// https://github.com/postgres/postgres/blob/REL_18_3/src/backend/utils/adt/jsonpath_exec.c#L799
+	if !exec.ignoreStructuralErrors {
+		return exec.returnVerboseError(fmt.Errorf(
+			"%w: jsonpath array accessor can only be applied to an array",
+			ErrVerbose,
+		))
+	}
+
+	return statusNotFound, nil
 }
 
 // executeItemUnwrapTargetArray unwraps the current array item and executes
